@@ -123,6 +123,7 @@ func checkC10() fw.Check {
 		Prop:  "C10",
 		Level: "fault_enumeration",
 		Rule: "per variant a census run counts the calls of every capture/send operation (factory, 1st/2nd SetPacketFilter, WriteTo, SetReadDeadline, Read, Source.Close, Sink.Close); then one run per (operation, k <= census count, error class in {fatal sentinel, os.ErrDeadlineExceeded, zero-length read once, zero-length read from k on}), plus SACK dial refusal and (thorough) pairs of faults; monitors: (nil result, error wrapping the injected sentinel) for fatal faults, never a result different from the fault-free one, every handle closed exactly once and never used after Close, no repository goroutine alive after return (bubble quiescence + full stack dump), open-fd count unchanged. " +
+			"Real-kernel stage: the CLI binary built from the working tree (no verif tag) in a chain of kernel routers, with an iptables DROP rule in the source host's OUTPUT chain that makes sendto() on the raw socket fail with EPERM for every probe or only for the probe with one TTL (icmp, udp, tcp syn; thorough adds IPv6 and multi-query requests): the command must fail, print no result, and its message must still name the cause. Caller cancellation of the ICMP and SACK entry points at ten instants (60 more in thorough) with the same closing discipline. " +
 			"distinct_nontrivial counts distinct (variant, operation, k-bucket, class) whose fault actually fired",
 		Workers:       1,
 		MinNontrivial: 60,
@@ -165,7 +166,8 @@ func checkC10() fw.Check {
 					}
 				}
 			}
-			return cases
+			// the real raw socket refusing a send (kernel_stage_test.go)
+			return withKernelStage("C10", tier, cases)
 		},
 	}
 }
